@@ -18,10 +18,11 @@ def run_C01():
                  "independent encoder; distinct = distinct (shape, type) signatures",
                  "<= 3 segments x <= 3 channels x <= 3 chunks x <= 3 values")
     rng = random.Random(SEED)
-    for segs in gen_cases(rng, int(1500 * BUDGET)):
-        data = G.encode(segs, "explicit")
+    for it, segs in enumerate(gen_cases(rng, int(1500 * BUDGET))):
+        style = ("explicit", "explicit", "incremental", "nometa")[it % 4]
+        data = G.encode(segs, style)
         exp = G.expected(segs)
-        res.case(sig_of(segs), any(o["has_data"] and o["nv"] for s in segs for o in s.objects),
+        res.case(sig_of(segs) + (style,), any(o["has_data"] and o["nv"] for s in segs for o in s.objects),
                  {"segments": len(segs), "bytes": len(data), "channels": sorted(exp["channels"])})
         compare_file(res, "c01", data, exp)
     return res
@@ -72,9 +73,13 @@ def run_C15():
         for mode in ("little", "big", "mixed"):
             for i, s in enumerate(segs):
                 s.big = {"little": False, "big": True, "mixed": i % 2 == 1}[mode]
-            data = G.encode(segs, "explicit")
-            res.case((mode,) + sig_of(segs), True, {"mode": mode, "bytes": len(data)} if mode == "mixed" else None)
-            compare_file(res, "c15/" + mode, data, exp)
+            # byte order is a per-segment flag; an index carried over from a segment of the other byte order
+            # ('same as before', omitted object, metadata-less segment) must be applied in THIS segment's order
+            for style in ("explicit", "incremental", "nometa"):
+                data = G.encode(segs, style)
+                res.case((mode, style) + sig_of(segs), True,
+                         {"mode": mode, "bytes": len(data)} if (mode, style) == ("mixed", "explicit") else None)
+                compare_file(res, "c15/%s/%s" % (mode, style), data, exp)
     return res
 
 
@@ -349,6 +354,7 @@ def run_C05():
                 if bad:
                     res.violation("c05/history-dependent-result", "after history %r: %r" % (hist, bad),
                                   file_script(data, "pass\n"))
+    _check_index_helpers(res, rng)
     return res
 
 
@@ -532,6 +538,30 @@ class Recorder(io.BytesIO):
         n = io.BytesIO.readinto(self, buf)
         self.log.append((p, n))
         return n
+
+
+def _check_index_helpers(res, rng):
+    """function-level runtime contract of reader._array_equal / _deduplicate_array (the offset index of a channel is
+    shared with an earlier channel's only if the arrays are equal): arrays up to 350 entries, differing at a
+    random position or not at all"""
+    from nptdms import reader as R
+    for it in range(int(300 * BUDGET)):
+        n = rng.choice([0, 1, 5, 99, 100, 101, 150, 200, 201, 350])
+        a = np.cumsum(np.array([rng.randint(0, 3) for _ in range(n)], dtype=np.int64))
+        b = a.copy()
+        if n and rng.random() < 0.6:
+            b[rng.randrange(n):] += 1
+        if rng.random() < 0.15:
+            b = b[:-1] if n else np.array([1], dtype=np.int64)
+        want = len(a) == len(b) and bool(np.array_equal(a, b))
+        res.case(("array_equal", n, it), True)
+        got = R._array_equal(a, b)
+        if bool(got) != want:
+            res.violation("c05/index-arrays-compared-equal-but-differ" if got else "c05/equal-index-arrays-compared-unequal",
+                          "len %d/%d: _array_equal -> %r, arrays equal: %r" % (len(a), len(b), got, want))
+        d = R._deduplicate_array(b, [a])
+        if not np.array_equal(d, b):
+            res.violation("c05/deduplicated-index-differs", "len %d: index replaced by an unequal one" % len(b))
 
 
 @runner("C19")
